@@ -129,6 +129,15 @@ func (set *SortedSet) GetRandom(count int) []MemberParam {
 	return res
 }
 
+// compareMembers orders members by score, then lexicographically by member.
+func compareMembers(a, b MemberParam) int {
+	if c := cmp.Compare(a.Score, b.Score); c != 0 {
+		return c
+	}
+	return cmp.Compare(a.Value, b.Value)
+}
+
+// GetAll returns the members ordered by score, then by member.
 func (set *SortedSet) GetAll() []MemberParam {
 	var res []MemberParam
 	for k, v := range set.members {
@@ -137,6 +146,7 @@ func (set *SortedSet) GetAll() []MemberParam {
 			Score: v.Score,
 		})
 	}
+	slices.SortFunc(res, compareMembers)
 	return res
 }
 
@@ -264,9 +274,9 @@ func (set *SortedSet) Pop(count int, policy string) (*SortedSet, error) {
 
 	slices.SortFunc(members, func(a, b MemberParam) int {
 		if strings.EqualFold(policy, "min") {
-			return cmp.Compare(a.Score, b.Score)
+			return compareMembers(a, b)
 		}
-		return cmp.Compare(b.Score, a.Score)
+		return compareMembers(b, a)
 	})
 
 	for i := 0; i < count; i++ {
